@@ -180,6 +180,19 @@ func runC19(r *rt.Runner) {
 			default:
 				f.FontMatrix[1], f.FontMatrix[2] = 0, 0
 			}
+			if rng.IntN(8) == 0 {
+				// quarter turns and an oblique matrix: the boxes are still the boxes of
+				// the mapped end points, the PDF width still the advance times the
+				// horizontal scale (which is 0 for a quarter turn), whatever the
+				// vertical advance is
+				f.FontMatrix = []matrix.Matrix{{0, 0.001, -0.001, 0, 0, 0}, {0, -0.001, 0.001, 0, 0.5, -0.25}, {0.001, 0, 0.000167, 0.001, 0, 0}, {-0.001, 0, 0, -0.001, 0, 0}, {0, 0.002, 0.001, 0, 0, 0}}[rng.IntN(5)]
+				for _, g := range f.Glyphs {
+					if rng.IntN(2) == 0 {
+						g.WidthY = float64(rng.IntN(2001) - 1000)
+					}
+				}
+				o.f("font matrix with a rotation or a slant, glyphs with vertical advances")
+			}
 			// command records that carry more arguments than their operator uses
 			// (a caller that keeps six slots per command, or spare values behind
 			// the points): the documented arguments are the first two / six
